@@ -108,6 +108,199 @@ def string_programs():
     return out
 
 
+# ---- the head of a `from` loop (Python statement of the semantics, the one Lang/Eval.v SFrom states): BOTH bounds are
+# evaluated once, left to right, in the scope that contains the loop, BEFORE the counter receives its first value; then the
+# counter is the lower bound (the existing variable when the name collides with a variable of the function, otherwise a
+# loop-local that is gone after the loop); the step is evaluated after every iteration INSIDE the loop, where a name equal
+# to the counter's name means the counter.  The generator of coregen keeps the counter's name out of its own bounds and
+# step; here it is in them, in every frame kind.
+HEAD_EXPRS = {      # text (c = the counter's name, m = another int variable) -> value
+    "0": lambda c, m: 0, "1": lambda c, m: 1, "3": lambda c, m: 3, "2": lambda c, m: 2, "m": lambda c, m: m, "c": lambda c, m: c,
+    "c + 1": lambda c, m: c + 1, "c + 3": lambda c, m: c + 3, "c * 2": lambda c, m: c * 2, "m + c": lambda c, m: m + c,
+    "c - 1": lambda c, m: c - 1, "rd()": lambda c, m: c, "rd() + 2": lambda c, m: c + 2,
+}
+HEAD_FRAMES = ["module", "module-block", "function-local", "function-parameter", "function-captured", "function-block"]
+
+
+def _names_counter(t):
+    return "c" in t or "rd()" in t
+
+
+def loop_head_semantics(frame, a, b, incl, step, c0, m, late_upper_bound=False):
+    """-> the lines the program prints.  late_upper_bound=True states the behaviour of the recorded defect instead (the
+    upper bound is evaluated after the counter has been given its start value)"""
+    local_counter = frame == "function-captured"            # the name is not a variable of the function: loop-local counter
+    lo = HEAD_EXPRS[a](c0, m)
+    if late_upper_bound:
+        # what the name / the reader sees once the counter is stored: the counter itself, except that a reader function
+        # (which captured the OUTER variable) still sees the outer variable when the counter is a separate loop-local
+        seen = lambda t: c0 if (local_counter and "rd()" in t) else lo
+        hi = HEAD_EXPRS[b](seen(b), m)
+    else:
+        hi = HEAD_EXPRS[b](c0, m)
+    lines = []
+    c = lo
+    outer = c0
+    n = 0
+    while (c <= hi) if incl else (c < hi):
+        lines.append(str(c))
+        if not local_counter:
+            outer = c
+        d = 1 if step is None else HEAD_EXPRS[step](c if not (local_counter and "rd()" in step) else c0, m)
+        assert d > 0
+        c += d
+        n += 1
+        assert n < 40
+    after = c0 if local_counter else c
+    lines.append("after %d" % after)
+    return lines
+
+
+def loop_head_source(frame, a, b, incl, step, c0, m):
+    head = "from %s %s %s%s, c {" % (a, "through" if incl else "to", b, "" if step is None else " step " + step)
+    uses_rd = any(t is not None and "rd()" in t for t in (a, b, step))
+    rd = "rd = fn() -> int {\n  return c\n}\n" if uses_rd else ""
+    ind = lambda n, txt: "".join("  " * n + l + "\n" for l in txt.rstrip("\n").split("\n"))
+    loop = "%s\n  print c\n}\nprint \"after \" + c\n" % head
+    if frame == "module":
+        return "c = %d\nm = %d\n%s%s" % (c0, m, rd, loop)
+    if frame == "module-block":
+        return "c = %d\nm = %d\n%sif m > 0 {\n%s}\n" % (c0, m, rd, ind(1, loop))
+    if frame == "function-local":
+        return "m = %d\nf = fn() {\n  c = %d\n%s%s}\nf()\n" % (m, c0, ind(1, rd) if rd else "", ind(1, loop))
+    if frame == "function-parameter":
+        return "m = %d\nf = fn(c: int) {\n%s%s}\nf(%d)\n" % (m, ind(1, rd) if rd else "", ind(1, loop), c0)
+    if frame == "function-captured":
+        return "c = %d\nm = %d\n%sf = fn() {\n%s}\nf()\n" % (c0, m, rd, ind(1, loop))
+    if frame == "function-block":
+        return "m = %d\nf = fn() {\n  c = %d\n%s  while true {\n%s    break\n  }\n}\nf()\n" % (m, c0, ind(1, rd) if rd else "", ind(2, loop))
+    raise ValueError(frame)
+
+
+_HV = lambda x: ('var', x)
+_HI = lambda n: ('int', n)
+_HCALL = ('call', ('var', 'rd'), [])
+HEAD_TREES = {
+    "0": _HI(0), "1": _HI(1), "2": _HI(2), "3": _HI(3), "m": _HV('m'), "c": _HV('c'),
+    "c + 1": ('bin', '+', _HV('c'), _HI(1)), "c + 3": ('bin', '+', _HV('c'), _HI(3)), "c * 2": ('bin', '*', _HV('c'), _HI(2)),
+    "m + c": ('bin', '+', _HV('m'), _HV('c')), "c - 1": ('bin', '-', _HV('c'), _HI(1)), "rd()": _HCALL, "rd() + 2": ('bin', '+', _HCALL, _HI(2)),
+}
+
+
+def loop_head_tree(frame, a, b, incl, step, c0, m):
+    """the same program as loop_head_source, as a tree of the Coq reference semantics (Lang/Eval.v): used to check that the
+    Python statement above and the Coq one say the same thing"""
+    collide = frame != "function-captured"
+    loop = [('from', HEAD_TREES[a], HEAD_TREES[b], incl, HEAD_TREES[step] if step is not None else None, 'c', collide, [('print', _HV('c'))]),
+            ('print', ('bin', '+', ('str', 'after '), _HV('c')))]
+    uses_rd = any(t is not None and "rd()" in t for t in (a, b, step))
+    rd = [('asg', 'rd', None, ('fn', [], 'int', [('ret', _HV('c'))]))] if uses_rd else []
+    cd, md = ('asg', 'c', None, _HI(c0)), ('asg', 'm', None, _HI(m))
+    callf = ('expr', ('call', _HV('f'), []))
+    if frame == "module":
+        t = [cd, md] + rd + loop
+    elif frame == "module-block":
+        t = [cd, md] + rd + [('if', ('bin', '>', _HV('m'), _HI(0)), loop)]
+    elif frame == "function-local":
+        t = [md, ('asg', 'f', None, ('fn', [], None, [cd] + rd + loop)), callf]
+    elif frame == "function-parameter":
+        t = [md, ('asg', 'f', None, ('fn', [('c', 'int')], None, rd + loop)), ('expr', ('call', _HV('f'), [_HI(c0)]))]
+    elif frame == "function-captured":
+        t = [cd, md] + rd + [('asg', 'f', None, ('fn', [], None, loop)), callf]
+    else:
+        t = [md, ('asg', 'f', None, ('fn', [], None, [cd] + rd + [('while', ('bool', True), loop + [('break',)])])), callf]
+    return [coregen.Gen.norm_s(x) for x in t]
+
+
+def loop_head_programs():
+    """every frame kind x {the counter's name in the lower bound / the upper bound / the step / nowhere} x to / through"""
+    heads = []
+    for a in ("0", "c", "c - 1", "1"):
+        for b in ("3", "m", "c", "c + 3", "c * 2", "m + c", "rd()", "rd() + 2"):
+            for step in (None, "2", "m", "c + 1", "c", "rd()"):
+                if step in ("c", "rd()") and a in ("0", "c - 1"):
+                    continue                # the step has to be positive: the counter starts at >= 1 in these
+                heads.append((a, b, step))
+    out = []
+    for i, (a, b, step) in enumerate(heads):
+        for j, frame in enumerate(HEAD_FRAMES):
+            incl = (i + j) % 2 == 1
+            c0, m = (2, 4) if (i + j) % 3 else (1, 5)
+            try:
+                exp = loop_head_semantics(frame, a, b, incl, step, c0, m)
+                late = loop_head_semantics(frame, a, b, incl, step, c0, m, late_upper_bound=True)
+            except AssertionError:
+                continue
+            where = [n for n, t in (("lower-bound", a), ("upper-bound", b), ("step", step)) if t is not None and _names_counter(t)]
+            out.append({"frame": frame, "head": (a, b, incl, step), "mentions": where, "src": loop_head_source(frame, a, b, incl, step, c0, m),
+                        "exp": exp, "late": late if late != exp else None, "tree": loop_head_tree(frame, a, b, incl, step, c0, m)})
+    return out
+
+
+# the counter's name means something of ANOTHER type outside the loop (a function, a string): in the bounds it is that outer
+# variable, in the step it is the counter (an int).  (form, program, lines | None = the program is ill-typed: a diagnostic)
+HEAD_TYPE_CASES = [
+    ("upper-bound-calls-outer-function", "limit = fn() -> int {\n  return 3\n}\nf = fn() {\n  from 0 to limit(), limit {\n    print limit\n  }\n}\nf()\nprint \"done\"\n",
+     ["0", "1", "2", "done"], "upper-bound"),
+    ("lower-bound-calls-outer-function", "base = fn() -> int {\n  return 1\n}\nf = fn() {\n  from base() to 3, base {\n    print base\n  }\n  print base()\n}\nf()\nprint \"done\"\n",
+     ["1", "2", "1", "done"], "lower-bound"),
+    ("both-bounds-call-outer-function", "lim = fn() -> int {\n  return 2\n}\nf = fn() {\n  from lim() - 2 through lim(), lim {\n    print lim\n  }\n}\nf()\nprint \"done\"\n",
+     ["0", "1", "2", "done"], "upper-bound"),
+    ("upper-bound-outer-string-length", "w = \"abc\"\nf = fn() {\n  from 0 to w.len(), w {\n    print w\n  }\n  print w\n}\nf()\n",
+     ["0", "1", "2", "abc"], "upper-bound"),
+    ("step-names-fresh-counter", "from 0 to 6 step j + 1, j {\n  print j\n}\nprint \"done\"\n", ["0", "1", "3", "done"], "step"),
+    ("step-names-fresh-counter-in-function", "f = fn(n: int) -> int {\n  t = 0\n  from 1 through n step j, j {\n    t = t + j\n  }\n  return t\n}\nprint f(20)\nprint f(3)\n", ["31", "3"], "step"),
+    ("step-names-fresh-counter-in-block", "k = 2\nwhile k > 0 {\n  k = k - 1\n  from 1 to 5 step j * 0 + k + 1, j {\n    print j\n  }\n}\n", ["1", "3", "1", "2", "3", "4"], "step"),
+    ("step-calls-counter", "s = fn() -> int {\n  return 2\n}\nf = fn() {\n  from 0 to 6 step s(), s {\n    print s\n  }\n}\nf()\nprint \"done\"\n", None, "step"),
+    ("step-calls-counter-through", "s = fn() -> int {\n  return 2\n}\nf = fn() -> int {\n  t = 0\n  from 1 through 5 step s() + 1, s {\n    t = t + s\n  }\n  return t\n}\nprint f()\n", None, "step"),
+    # (well-typed under the reading "the name is the counter": int + str is a string; under the other reading the step would be 3)
+    ("step-concatenates-counter", "s = \"ab\"\nf = fn() {\n  from 0 to 6 step (s + \"c\").len(), s {\n    print s\n  }\n}\nf()\n", ["0", "2", "4"], "step"),
+]
+
+
+# ---- a variable that holds a function which captured THAT variable (the way named and mutual recursion is written:
+# placeholder, then the real function; `self` only reaches the function itself): the frame that owns the variable goes on
+# executing ordinary statements - loops, list literals, indexing - after the calls have returned
+SELF_REF_SETUPS = [
+    ("named-recursion", "{f} = fn(n: int) -> int {{\n  return 0\n}}\n{f} = fn(n: int) -> int {{\n  if n <= 0 {{\n    return 0\n  }}\n  return {f}(n - 1) + 2\n}}\nprint {f}(3)\n", ["6"]),
+    ("mutual-recursion", "{f} = fn(n: int) -> int {{\n  return 0\n}}\nod = fn(n: int) -> int {{\n  if n == 0 {{\n    return 0\n  }}\n  return {f}(n - 1)\n}}\n"
+                         "{f} = fn(n: int) -> int {{\n  if n == 0 {{\n    return 1\n  }}\n  return od(n - 1)\n}}\nprint {f}(4)\nprint od(4)\n", ["1", "0"]),
+    ("not-yet-called", "{f} = fn(n: int) -> int {{\n  return 0\n}}\n{f} = fn(n: int) -> int {{\n  if n <= 0 {{\n    return 0\n  }}\n  return {f}(n - 1) + 2\n}}\n", []),
+]
+SELF_REF_TRIGGERS = [
+    ("from-loop", "anonymous", "from 0 to 2 {\n  print \"tick\"\n}\n", ["tick", "tick"]),
+    ("from-loop", "named", "from 0 to 2, i {\n  print i\n}\n", ["0", "1"]),
+    ("from-loop", "stepped-through", "from 1 through 5 step 2, i {\n  print i\n}\n", ["1", "3", "5"]),
+    ("from-loop", "left-by-break", "from 0 to 9, i {\n  if i == 1 {\n    break\n  }\n  print i\n}\n", ["0"]),
+    ("from-loop", "calls-it", "from 0 to 2, i {\n  print {f}(i)\n}\n", None),
+    ("list-literal", "literal", "l: [int...] = [1, 2]\nprint l\n", ["[1, 2]"]),
+    ("list-literal", "of-calls", "l: [int...] = [{f}(1), {f}(2)]\nprint l\n", None),
+    ("variable-index", "list", "xs: [int...] = [10, 20, 30]\nk = 1\nprint xs[k]\n", ["20"]),
+    ("variable-index", "string", "w = \"hey\"\nk = 2\nprint w[k]\n", ["y"]),
+    ("other", "while-if", "k = 0\nwhile k < 2 {\n  k = k + 1\n  if k == 2 {\n    print k\n  }\n}\n", ["2"]),
+]
+
+
+def self_reference_programs():
+    out = []
+    ind = lambda n, txt: "".join("  " * n + l + "\n" for l in txt.rstrip("\n").split("\n")) if txt else ""
+    for sname, setup, sexp in SELF_REF_SETUPS:
+        for kind, tname, trig, texp in SELF_REF_TRIGGERS:
+            if texp is None:
+                if sname == "named-recursion":
+                    texp = ["0", "2"] if kind == "from-loop" else ["[2, 4]"]
+                elif sname == "mutual-recursion":
+                    texp = ["1", "0"] if kind == "from-loop" else ["[0, 1]"]
+                else:
+                    texp = ["0", "2"] if kind == "from-loop" else ["[2, 4]"]
+            body = setup.format(f="rec") + trig.replace("{f}", "rec")
+            exp = sexp + texp
+            out.append((kind, sname, tname, "module", body + "print \"done\"\n", exp + ["done"]))
+            out.append((kind, sname, tname, "function", "run = fn() -> int {\n%s  return 7\n}\nprint run()\nprint \"done\"\n" % ind(1, body), exp + ["7", "done"]))
+            out.append((kind, sname, tname, "block", "g = 1\nif g == 1 {\n%s}\nprint \"done\"\n" % ind(1, body), exp + ["done"]))
+    return out
+
+
 def run(ctx):
     ok = core.coq_props(ctx, "Props/C01.v")
     binary = core.build_repo()
@@ -179,6 +372,72 @@ def run(ctx):
             ctx.report("string-literal:" + kind, "a string literal with escaped backslashes / quotes (%s): printed %r (exit %d), the language defines %r: %s"
                        % (form, [] if "Did not compile" in (out + err) else got, rc, exp, (out + err)[-300:].replace("\n", " ")),
                        {"program": src, "expected": exp, "observed": got, "rc": rc, "stderr": err[-600:], "how": "mscript run main.ms -q"})
+    # the head of a from loop: the counter's name in its own bounds and step
+    KNOWN_HEAD = "loop-head:upper-bound-evaluated-after-counter-start"
+    lhs = loop_head_programs()
+    n_heads = 0
+    for c, (rc, out, err) in zip(lhs, programs.pmap(one_src, [c["src"] for c in lhs])):
+        n_heads += 1
+        got = out.split("\n")[:-1]
+        if rc == 0 and got == c["exp"]:
+            continue
+        refused = rc != 0 and "Did not compile" in (out + err)
+        if rc == 0 and c["late"] is not None and got == c["late"]:
+            cls = KNOWN_HEAD            # exactly the recorded behaviour: the upper bound saw the counter's start value
+        else:
+            cls = "loop-head:" + ("+".join(c["mentions"]) or "counter-name-not-in-head")
+        a, b, incl, step = c["head"]
+        ctx.report(cls, "`from %s %s %s%s, c` (%s; the counter's name occurs in: %s) %s, the language defines %r: %s"
+                   % (a, "through" if incl else "to", b, "" if step is None else " step " + step, c["frame"], ", ".join(c["mentions"]) or "-",
+                      "is refused" if refused else "printed %r (exit %d)" % (got, rc), c["exp"], (out + err)[-300:].replace("\n", " ") if rc != 0 else ""),
+                   {"program": c["src"], "expected": c["exp"], "observed": got, "rc": rc, "stderr": err[-600:], "how": "mscript run main.ms -q",
+                    "semantics": "both bounds are evaluated, left to right, before the counter receives its first value; the step is evaluated after every iteration inside the loop"})
+    # the Python statement of the loop head says what the Coq reference semantics (Lang/Eval.v, SFrom) says: same lines on every
+    # one of these programs (rendered from the same tree; a difference is a defect of THIS check, not of the compiler)
+    core_drv = coretie.drivers()[0]
+    import os
+
+    def one_ref(c):
+        d = os.path.join(cbase, "ref%d" % id(c))
+        os.makedirs(d, exist_ok=True)
+        m, e = coretie.run_core_model(core_drv, {"tree": coregen.assign_spans(c["tree"], "main.ms")}, d)
+        return (None, e) if m is None else (["\n".join(m["eval_out"]).split("\n") if m["eval_out"] else [], m["eval_result"]], None)
+    n_ref = 0
+    for c, (ref, e) in zip(lhs, programs.pmap(one_ref, lhs)):
+        if ref is not None and ref[0] == c["exp"] and ref[1] is not None and ref[1][0] == "done":
+            n_ref += 1
+        else:
+            ctx.report("loop-head-oracle:python-differs-from-reference-semantics", "the Python statement of the from-loop head and Lang/Eval.v disagree on %r (%s): python %r, Lang/Eval.v %r %s"
+                       % (c["head"], c["frame"], c["exp"], ref, e or ""), {"program": c["src"], "python": c["exp"], "reference": ref}, found_input=False)
+    ctx.cov["loop_head_programs_python_equals_reference_semantics"] = n_ref
+    for (form, src, exp, where), (rc, out, err) in zip(HEAD_TYPE_CASES, programs.pmap(one_src, [c[1] for c in HEAD_TYPE_CASES])):
+        n_heads += 1
+        got = out.split("\n")[:-1]
+        refused = rc != 0 and "Did not compile" in (out + err)
+        if (exp is None and refused) or (exp is not None and rc == 0 and got == exp):
+            continue
+        if where == "upper-bound" and not refused and rc > 0 and got == []:
+            cls = KNOWN_HEAD            # the bound expression ran on the counter's start value (an int) and failed there
+        elif where == "step":
+            cls = "loop-head:step-resolved-outside-the-loop"
+        else:
+            cls = "loop-head:" + where
+        ctx.report(cls, "the counter's name means something else (a variable of another type, or nothing) outside the loop (%s): %s, the language defines %s: %s"
+                   % (form, "the program is refused" if refused else "printed %r (exit %d)" % (got, rc),
+                      "a compile-time diagnostic (in the step the name is the counter, an int)" if exp is None else repr(exp), (out + err)[-300:].replace("\n", " ")),
+                   {"program": src, "expected": exp, "observed": got, "rc": rc, "stderr": err[-600:], "how": "mscript run main.ms -q"})
+    ctx.cov["loop_head_programs"] = n_heads
+    # a function stored in the variable it captured; its frame goes on with loops / list literals / indexing
+    srs = self_reference_programs()
+    for (kind, sname, tname, frame, src, exp), (rc, out, err) in zip(srs, programs.pmap(one_src, [c[4] for c in srs])):
+        got = out.split("\n")[:-1]
+        if rc == 0 and got == exp:
+            continue
+        refused = rc != 0 and "Did not compile" in (out + err)
+        ctx.report("function-in-its-own-captured-variable:" + kind, "a variable holds a function that captured this variable (%s), then its frame (%s) runs %s (%s): %s, the language defines %r: %s"
+                   % (sname, frame, kind, tname, "the program is refused" if refused else "printed %r (exit %d)" % (got, rc), exp, (out + err)[-300:].replace("\n", " ")),
+                   {"program": src, "expected": exp, "observed": got, "rc": rc, "stderr": err[-600:], "how": "mscript run main.ms -q"})
+    ctx.cov["self_reference_programs"] = len(srs)
     ctx.cov["identifier_programs"] = n_names
     ctx.cov["string_literal_programs"] = n_strings
     cps = constant_programs(ctx.rng, 60 if ctx.quick() else 1500)
@@ -196,11 +455,12 @@ def run(ctx):
             ctx.report("semantics:constant-expression", "literal-only expressions in value positions: printed %r (exit %d), the language defines %r: %s" % (got, rc, exp, (out + err)[-200:].replace("\n", " ")),
                        {"program": src, "expected": exp, "observed": got, "rc": rc, "how": "mscript run main.ms -q"})
     ctx.cov["constant_expression_programs"] = n_const
-    ctx.cov["evaluations"] = st["programs"] + n_const + n_names + n_strings
+    ctx.cov["evaluations"] = st["programs"] + n_const + n_names + n_strings + n_heads + len(srs)
     ctx.cov["distinct_nontrivial"] = len(set(r["proj"]["files"]["main.ms"] for r in results if r["status"] == "ran" and r.get("steps", 0) > 30))
     ctx.cov["rule"] = ("programs = all statement skeletons to nesting depth %d (each as a function body called with 3 data variants and at module level) "
                        "+ random well-typed Core programs (depth <= 3 and <= 5); non-trivial = distinct program whose real run executes > 30 instructions; "
-                       "plus (Python oracle) identifiers that begin like a keyword / literal in 9 positions and string literals with escaped backslashes / quotes" % depth)
+                       "plus (Python oracle) identifiers that begin like a keyword / literal in 9 positions, string literals with escaped backslashes / quotes, "
+                       "from-loop heads whose bounds / step mention the counter's name in 6 frame kinds, and frames that hold a function in the variable it captured" % depth)
     ctx.cov["exhaustive"] = True
     ctx.cov["skeleton_programs"] = n_skel
     ctx.cov["precedence_programs"] = n_prec
@@ -211,5 +471,5 @@ def run(ctx):
                                "hooks H1/H3", "generator vlib/coregen.py renders one tree as .ms text and as model input"]
     ctx.assumptions = ["the reference semantics Lang/Eval.v is the formal reading of the language semantics",
                        "simulation theorems cover the expression fragment; statement-level agreement is established by the T1/T2/T3 correspondences"]
-    spec_failed = any(v[0].startswith(("semantics:", "identifier:", "string-literal:", "valid-program-rejected")) for v in ctx.viol)
+    spec_failed = any(v[0].startswith(("semantics:", "identifier:", "string-literal:", "valid-program-rejected", "loop-head:", "function-in-its-own-captured-variable:")) for v in ctx.viol)
     core.proof_or_search(ctx, ok, ["C01 obligations"], spec_failed)
